@@ -13,6 +13,7 @@ and reports success only when a direct connection exists".
   spec/C12_HolePunchObs.tla  observable-level spec (guards = the clauses); TLC validates the ledgers recorded during the
                              replay (and during the free runs that follow a disagreement with the model)
 """
+import json
 import os
 
 from lib import goenv, graph, tlc, tracecheck
@@ -87,9 +88,22 @@ def run_part(ctx, thorough):
     mark("graph")
     # (3) replay on the real service; ledgers recorded for every k-th walk
     every = 3 if thorough else 4
-    res = goenv.run_harness(ctx, PKG, "^TestVerifC12HolePunchReplay$", inputs=beh, timeout=1500,
+    # (same test binary, same invocation:) the contract the hole puncher relies on, decided on the real BasicHost over
+    # a real Swarm, and the fake host's fidelity to it; its result goes to <out>/host/result.json
+    res = goenv.run_harness(ctx, PKG, "^TestVerifC12HolePunch(Replay|HostContract)$", inputs=beh, timeout=1500,
                             env={"VERIF_C12HP_TRACE_EVERY": every})
     div = classify_mismatches(ctx, res, "holepunch")
+    hp_path = os.path.join(res["_out"], "host", "result.json")
+    if not os.path.exists(hp_path):
+        raise MachineryError("the host-contract test wrote no result:\n%s" % res["_log"][-2000:])
+    with open(hp_path) as f:
+        hc = json.load(f)
+    div += classify_mismatches(ctx, hc, "holepunch-host")
+    hx = hc.get("extra") or {}
+    for need in ("connect-force-only-relayed-conns-ok=false", "connect-force-only-relayed-conns-ok=true", "newstream-rode-L",
+                 "newstream-rode-D", "newstream-rode-"):
+        if not hx.get(need) and not hc["mismatches"]:
+            raise MachineryError("vacuous host-contract run: no %s case in %d" % (need, hc["replayed"]))
     if not res["mismatches"] and res["steps"] < g.n_edges():
         raise MachineryError("hole-punch replay executed %d steps for %d transitions" % (res["steps"], g.n_edges()))
     mark("replay")
@@ -119,15 +133,6 @@ def run_part(ctx, thorough):
                % (r1.distinct, r1.generated, 3 if thorough else 2, g.n_edges(), len(walks), res["steps"], acc, len(rej),
                   classes, div, extra.get("stream-over-direct", 0), hc["replayed"]))
     mark("traces")
-    # (5) the contract the hole puncher relies on, on the real BasicHost over a real Swarm (and the fake host's fidelity)
-    hc = goenv.run_harness(ctx, PKG, "^TestVerifC12HolePunchHostContract$", timeout=900)
-    div += classify_mismatches(ctx, hc, "holepunch-host")
-    hx = hc.get("extra") or {}
-    for need in ("connect-force-only-relayed-conns-ok=false", "connect-force-only-relayed-conns-ok=true", "newstream-rode-L",
-                 "newstream-rode-D", "newstream-rode-"):
-        if not hx.get(need) and not hc["mismatches"]:
-            raise MachineryError("vacuous host-contract run: no %s case in %d" % (need, hc["replayed"]))
-    mark("host")
     log("C12hp: " + summary + " [" + ", ".join(marks) + "]")
     return {"summary": summary, "states": r1.distinct, "transitions": r1.generated, "replayed": res["replayed"] + acc + hc["replayed"],
             "samples": (res.get("samples") or [])[:2]}
